@@ -108,12 +108,28 @@ impl Validator {
                 }
             }
             if self.has_choice_selection_type(&key) {
-                if let Some((k, ToplevelDefinition::Type(mut tld))) = self.tlds.remove_entry(&key) {
-                    if let Err(mut e) = tld.ty.link_choice_selection_type(&self.tlds) {
-                        e.contextualize(&key);
-                        warnings.push(e.into());
+                match self.tlds.remove_entry(&key) {
+                    Some((k, ToplevelDefinition::Type(mut tld))) => {
+                        if let Err(mut e) = tld.ty.link_choice_selection_type(&self.tlds) {
+                            e.contextualize(&key);
+                            warnings.push(e.into());
+                        }
+                        self.tlds.insert(k, ToplevelDefinition::Type(tld));
                     }
-                    self.tlds.insert(k, ToplevelDefinition::Type(tld));
+                    // a value may be governed by a selection type: `limit radius < Shape ::= 5`
+                    Some((k, ToplevelDefinition::Value(mut tld))) => {
+                        if let Err(mut e) =
+                            tld.associated_type.link_choice_selection_type(&self.tlds)
+                        {
+                            e.contextualize(&key);
+                            warnings.push(e.into());
+                        }
+                        self.tlds.insert(k, ToplevelDefinition::Value(tld));
+                    }
+                    Some((k, tld)) => {
+                        self.tlds.insert(k, tld);
+                    }
+                    None => (),
                 }
             }
             if self.references_object_set_by_name(&key) {
@@ -355,6 +371,7 @@ impl Validator {
             .get(key)
             .map(|t| match t {
                 ToplevelDefinition::Type(t) => t.ty.has_choice_selection_type(),
+                ToplevelDefinition::Value(v) => v.associated_type.has_choice_selection_type(),
                 _ => false,
             })
             .unwrap_or(false)
